@@ -639,6 +639,12 @@ func (e *Engine) specSort(name string, pkg *types.Package) (Sort, types.Type) {
 		return "(Array Ref Bytes)", nil
 	case "IntBytesArr":
 		return "(Array Int Bytes)", nil
+	case "BytesBytesArr":
+		return "(Array Bytes Bytes)", nil
+	case "IntBoolArr":
+		return "(Array Int Bool)", nil
+	case "BytesBoolArr":
+		return "(Array Bytes Bool)", nil
 	}
 	if strings.HasPrefix(name, "(Array ") {
 		return Sort(name), nil
@@ -835,6 +841,14 @@ func (env *Env) call(x *ast.CallExpr) Val {
 			env.fail("fresh() needs a pre-state")
 		}
 		return term(and(not(eq(r, "rnil")), fmt.Sprintf("(>= (stamp %s) %s)", r, env.old.alive)), SBool, nil)
+	case "store":
+		argn(3)
+		a, i, v := env.eval(x.Args[0]), env.eval(x.Args[1]), env.materialize(env.eval(x.Args[2]))
+		if v.K == KUnit {
+			es := elemSortOfArray(a.S)
+			v = term(e.d.Zero(es, nil), es, nil)
+		}
+		return term(store(a.T, i.T, v.T), a.S, a.Typ)
 	case "off":
 		argn(1)
 		v := env.materialize(env.eval(x.Args[0]))
